@@ -59,27 +59,51 @@ class FlagInfo:
             t = body.blocks[bi]["term"]
             if t["k"] == "call" and not t["dest"]["p"]:
                 defs.setdefault(t["dest"]["l"], []).append(None)
+        self._defs = defs
+        self._close_copies()
+        # a bool that is, on every path, either a copy of one flag or that flag's initial constant
+        # (`fn hooks(..) -> bool { if list.is_empty() { return true } let mut go = true; ..; go }`
+        # inlined: the return place is `true` or `go`): a test of it is a test of the flag
+        init = {}
+        for f_ in self.flags:
+            cs = []
+            for bi in cfg.nodes():
+                if cfg.in_cycle(bi):
+                    continue
+                for s_ in body.blocks[bi]["stmts"]:
+                    if s_["k"] == "assign" and not s_["place"]["p"] and s_["place"]["l"] == f_ and s_["rv"]["k"] == "use":
+                        cs.append(const_bool(s_["rv"]["op"]))
+            if len(cs) == 1 and cs[0] is not None:
+                init[f_] = cs[0]
         changed = True
-        while changed:  # copies of copies (a flag handed back through an inlined helper's return place)
+        while changed:
             changed = False
             for l, rvs in defs.items():
-                if l in self.flags or l in self.copy_of or len(rvs) != 1 or rvs[0] is None:
+                if l in self.flags or l in self.copy_of or len(rvs) < 2 or any(rv is None for rv in rvs) or body.locals[l]["ty"] != "bool":
                     continue
-                rv = rvs[0]
-                src = neg = None
-                if rv["k"] == "use" and rv["op"]["k"] in ("copy", "move") and not rv["op"]["place"]["p"]:
-                    src, neg = rv["op"]["place"]["l"], False
-                elif rv["k"] == "unop" and rv["op"] == "Not" and rv["a"]["k"] in ("copy", "move") and not rv["a"]["place"]["p"]:
-                    src, neg = rv["a"]["place"]["l"], True
-                if src is None:
-                    continue
-                if src in self.flags:
-                    self.copy_of[l] = (src, neg)
-                    changed = True
-                elif src in self.copy_of:
-                    r0, n0 = self.copy_of[src]
-                    self.copy_of[l] = (r0, n0 != neg)
-                    changed = True
+                roots = set()
+                consts_ = []
+                ok = True
+                for rv in rvs:
+                    if rv["k"] == "use" and rv["op"]["k"] in ("copy", "move") and not rv["op"]["place"]["p"]:
+                        src = rv["op"]["place"]["l"]
+                        if src in self.flags:
+                            roots.add((src, False))
+                        elif src in self.copy_of:
+                            roots.add(self.copy_of[src])
+                        else:
+                            ok = False
+                    elif rv["k"] == "use" and const_bool(rv["op"]) is not None:
+                        consts_.append(const_bool(rv["op"]))
+                    else:
+                        ok = False
+                if ok and len(roots) == 1:
+                    (r0, n0) = next(iter(roots))
+                    if r0 in init and all(c == (init[r0] != n0) for c in consts_):
+                        self.copy_of[l] = (r0, n0)
+                        changed = True
+            if changed:
+                self._close_copies()
         # flags some switch actually looks at (a flag that is written but never tested is dead)
         self.tested = set()
         if 0 in self.copy_of:
@@ -101,6 +125,30 @@ class FlagInfo:
                 f = self.switch_flag(t)
                 if f is not None:
                     self.tested.add(f[0])
+
+    def _close_copies(self):
+        defs = self._defs
+        changed = True
+        while changed:  # copies of copies (a flag handed back through an inlined helper's return place)
+            changed = False
+            for l, rvs in defs.items():
+                if l in self.flags or l in self.copy_of or len(rvs) != 1 or rvs[0] is None:
+                    continue
+                rv = rvs[0]
+                src = neg = None
+                if rv["k"] == "use" and rv["op"]["k"] in ("copy", "move") and not rv["op"]["place"]["p"]:
+                    src, neg = rv["op"]["place"]["l"], False
+                elif rv["k"] == "unop" and rv["op"] == "Not" and rv["a"]["k"] in ("copy", "move") and not rv["a"]["place"]["p"]:
+                    src, neg = rv["a"]["place"]["l"], True
+                if src is None:
+                    continue
+                if src in self.flags:
+                    self.copy_of[l] = (src, neg)
+                    changed = True
+                elif src in self.copy_of:
+                    r0, n0 = self.copy_of[src]
+                    self.copy_of[l] = (r0, n0 != neg)
+                    changed = True
 
     def switch_flag(self, term):
         """(flag local, negated) if the switch tests a flag"""
